@@ -107,6 +107,171 @@ type vocWorld struct {
 	held    []*FDOperator // operators taken by "drain" and never used
 	mid     func()        // "dclose": runs once inside the next Inputs callback, i.e. while the poller holds that slot's token
 	sents   []*vocSentinel // hang-up goroutines that have not finished (an entry is blocked at a gate)
+	// real-Wait mode ("waitstart" … "waitstop"): defaultPoll.Wait runs on its own goroutine and IS the poller; it reports to the
+	// harness after every return of epoll_wait (schedule point of lib/epollhook.py) and at the entry of p.Handler (wrapped func
+	// field) and waits there until it is resumed: fetch and opcache.free() are Wait's, the harness only observes them
+	realWait  bool
+	hookBatch []epollevent
+	toMain    chan vocEv
+	resume    chan struct{}
+	waitDone  chan error
+	waitEnded bool // Wait returned: the close message made handler close the poller's descriptors
+}
+
+type vocEv struct {
+	kind  int // 1: epoll_wait returned, 2: p.Handler entered
+	n     int
+	batch []epollevent
+	wop   bool
+}
+
+// verifAfterEpollWait is called by the hooked copy of EpollWait (lib/epollhook.py) after the system call returned; nil, or never
+// called when the harness was built without that overlay
+var verifAfterEpollWait func(epfd int, events []epollevent, n int)
+
+var vocHookWorld *vocWorld
+
+func vocHookAvailable() bool {
+	fd, err := EpollCreate(0)
+	if err != nil {
+		return false
+	}
+	defer syscall.Close(fd)
+	hit := false
+	old := verifAfterEpollWait
+	verifAfterEpollWait = func(int, []epollevent, int) { hit = true }
+	EpollWait(fd, make([]epollevent, 1), 0)
+	verifAfterEpollWait = old
+	return hit
+}
+
+func (w *vocWorld) startWait() bool {
+	if !vocHookAvailable() {
+		return false
+	}
+	w.toMain, w.resume, w.waitDone = make(chan vocEv), make(chan struct{}), make(chan error, 1)
+	w.realWait = true
+	p := w.p
+	p.Handler = func(events []epollevent) bool {
+		for i := range events {
+			if *(**FDOperator)(unsafe.Pointer(&events[i].data)) == p.wop {
+				return p.handler(events)
+			}
+		}
+		w.toMain <- vocEv{kind: 2}
+		<-w.resume
+		return false // the harness has dispatched every event of the batch through the real handler meanwhile
+	}
+	vocHookWorld = w
+	verifAfterEpollWait = func(epfd int, events []epollevent, n int) {
+		hw := vocHookWorld
+		if hw == nil || epfd != hw.p.fd {
+			return
+		}
+		ev := vocEv{kind: 1, n: n}
+		if n > 0 {
+			ev.batch = append([]epollevent(nil), events[:n]...)
+			for i := range ev.batch {
+				if *(**FDOperator)(unsafe.Pointer(&ev.batch[i].data)) == hw.p.wop {
+					ev.wop = true
+				}
+			}
+		}
+		hw.toMain <- ev
+		<-hw.resume
+	}
+	go func() { w.waitDone <- p.Wait() }()
+	return true
+}
+
+func (w *vocWorld) recv() (vocEv, bool) {
+	select {
+	case ev := <-w.toMain:
+		return ev, true
+	case <-time.After(5 * time.Second):
+		return vocEv{}, false
+	}
+}
+
+// pump follows the real loop until it blocks in epoll_wait again: every batch it fetches is written as "fetch", its events are
+// dispatched ("dispatch" = the real handler, one event per call, on behalf of the parked loop) and the state after the loop's own
+// opcache.free() is observed as "endbatch".  first: actions placed into the first batch –
+// afterFetch runs between the return of epoll_wait and the loop's next statement, beforeDispatch at the entry of p.Handler.
+func (w *vocWorld) pump(emit func(string) bool, afterFetch, beforeDispatch func()) bool {
+	for {
+		ev, ok := w.recv()
+		if !ok || ev.kind != 1 {
+			return false
+		}
+		if w.inBatch {
+			emit("endbatch") // Wait is past its free() of the previous iteration (if it is where it belongs)
+		}
+		if ev.n <= 0 || ev.wop {
+			w.resume <- struct{}{}
+			if ev.n <= 0 {
+				return true // msec = -1: the loop blocks until something arrives
+			}
+			continue
+		}
+		w.hookBatch = ev.batch
+		emit("fetch")
+		if afterFetch != nil {
+			afterFetch()
+			afterFetch = nil
+		}
+		w.resume <- struct{}{}
+		if ev2, ok := w.recv(); !ok || ev2.kind != 2 {
+			return false
+		}
+		if beforeDispatch != nil {
+			beforeDispatch()
+			beforeDispatch = nil
+		}
+		for w.inBatch && w.bpos < len(w.batch) {
+			if !emit("dispatch") {
+				break
+			}
+		}
+		w.resume <- struct{}{}
+	}
+}
+
+func (w *vocWorld) stopWait(emit func(string) bool) bool {
+	if !w.realWait || w.waitEnded {
+		return true
+	}
+	w.p.Close()
+	dl := time.After(10 * time.Second)
+	for {
+		select {
+		case ev := <-w.toMain:
+			if ev.kind == 1 && w.inBatch {
+				emit("endbatch")
+			}
+			if ev.kind == 1 && ev.n > 0 && !ev.wop {
+				// connection events fetched together with nothing else: dispatch them like any batch
+				w.hookBatch = ev.batch
+				emit("fetch")
+				w.resume <- struct{}{}
+				if ev2, ok := w.recv(); !ok || ev2.kind != 2 {
+					return false
+				}
+				for w.inBatch && w.bpos < len(w.batch) {
+					if !emit("dispatch") {
+						break
+					}
+				}
+			}
+			w.resume <- struct{}{}
+		case <-w.waitDone:
+			w.waitEnded = true
+			vocHookWorld = nil
+			verifAfterEpollWait = nil
+			return true
+		case <-dl:
+			return false
+		}
+	}
 }
 
 func (w *vocWorld) newSentinel() (*vocSentinel, error) {
@@ -340,11 +505,20 @@ func (w *vocWorld) exec(toks []string) (op string, reply string) {
 		if w.inBatch {
 			return op, "skip"
 		}
-		n, err := EpollWait(w.p.fd, w.p.events, 0)
-		if err != nil || n < 0 {
-			n = 0
+		if w.realWait {
+			// the batch is the one defaultPoll.Wait's own epoll_wait returned
+			if w.hookBatch == nil {
+				return op, "skip"
+			}
+			w.batch = append(w.batch[:0], w.hookBatch...)
+			w.hookBatch = nil
+		} else {
+			n, err := EpollWait(w.p.fd, w.p.events, 0)
+			if err != nil || n < 0 {
+				n = 0
+			}
+			w.batch = append(w.batch[:0], w.p.events[:n]...)
 		}
-		w.batch = append(w.batch[:0], w.p.events[:n]...)
 		w.bpos, w.inBatch = 0, true
 		var idxs []string
 		for i := range w.batch {
@@ -475,6 +649,10 @@ func (w *vocWorld) exec(toks []string) (op string, reply string) {
 			return fmt.Sprintf("dclose %d slot=%d", vc.id, vc.idx), "BYSTANDER-FAIL bytes of a descriptor opened while connection " + fmt.Sprint(vc.id) + "'s event was being dispatched were consumed on behalf of that (closed) connection: " + verdict
 		}
 		return fmt.Sprintf("dclose %d slot=%d", vc.id, vc.idx), fmt.Sprintf("ok ran=%s probe=intact %s", ran, w.obs())
+	case "waitround", "waitend":
+		return op, "ok " + w.obs()
+	case "waithang":
+		return op, "hang"
 	case "gate":
 		// the connection's OnDisconnect callback will block until "release" (a slow user callback on the hang-up goroutine)
 		vc := w.conns[atoi(toks[1])]
@@ -598,7 +776,9 @@ func (w *vocWorld) exec(toks []string) (op string, reply string) {
 		if !w.inBatch || w.bpos < len(w.batch) {
 			return op, "skip"
 		}
-		w.p.opcache.free()
+		if !w.realWait {
+			w.p.opcache.free() // (in real-Wait mode this is the loop's own statement; the step only observes the result)
+		}
 		w.inBatch = false
 		return op, "ok " + w.obs()
 	case "close":
@@ -687,9 +867,75 @@ func vocNewWorld() (*vocWorld, func(), error) {
 			}
 		}
 		pollmanager = old
+		if w.realWait {
+			if w.stopWait(func(l string) bool { w.exec(strings.Fields(l)); return true }) {
+				return // the close message made the loop close both descriptors
+			}
+			vocHookWorld = nil
+			verifAfterEpollWait = nil
+		}
 		syscall.Close(p.wop.FD)
 		syscall.Close(p.fd)
 	}, nil
+}
+
+// runRound: one round of a real-Wait sequence.  spec = "s=<ids> c=<ids> o=<n> x=<0|1>": the connections in s get data (their
+// events make the loop's next batch); when the loop's epoll_wait has returned – and before the loop executes its next statement –
+// the users of the connections in c close them; at the entry of p.Handler, i.e. between fetch and dispatch, o new connections are
+// opened (x=1: the last one gets data at once); then the batch is dispatched and the loop goes on.
+func (w *vocWorld) runRound(spec string, emit func(string) bool) {
+	ids := func(v string) []int {
+		var out []int
+		for _, t := range strings.Split(v, ",") {
+			var n int
+			if _, err := fmt.Sscanf(t, "%d", &n); err == nil {
+				out = append(out, n)
+			}
+		}
+		return out
+	}
+	var sends, closes []int
+	opens, sendNew := 0, false
+	for _, kv := range strings.Fields(spec) {
+		switch {
+		case strings.HasPrefix(kv, "s="):
+			sends = ids(kv[2:])
+		case strings.HasPrefix(kv, "c="):
+			closes = ids(kv[2:])
+		case strings.HasPrefix(kv, "o="):
+			fmt.Sscanf(kv[2:], "%d", &opens)
+		case kv == "x=1":
+			sendNew = true
+		}
+	}
+	emit("waitround " + spec)
+	sent := 0
+	for _, id := range sends {
+		if id < len(w.conns) && !w.conns[id].closed && !w.conns[id].peerClosed {
+			emit(fmt.Sprintf("send %d", id))
+			sent++
+		}
+	}
+	if sent > 0 {
+		ok := w.pump(emit, func() {
+			for _, id := range closes {
+				if id < len(w.conns) {
+					emit(fmt.Sprintf("close %d", id))
+				}
+			}
+		}, func() {
+			for i := 0; i < opens; i++ {
+				emit("open")
+			}
+			if sendNew && opens > 0 {
+				emit(fmt.Sprintf("send %d", len(w.conns)-1))
+			}
+		})
+		if !ok {
+			emit("waithang")
+		}
+	}
+	emit("waitend")
 }
 
 // VerifOpCacheMain: opcacheh -seed S -seqs N -ops K -ops-out F -impl-out F [-replay F]
@@ -701,6 +947,7 @@ func VerifOpCacheMain(args []string) int {
 	opsOut := fs.String("ops-out", "", "")
 	implOut := fs.String("impl-out", "", "")
 	replay := fs.String("replay", "", "")
+	waitEvery := fs.Int("wait-every", 4, "every n-th sequence runs the REAL defaultPoll.Wait loop as the poller (needs the EpollWait schedule point of lib/epollhook.py; 0 = never)")
 	hazard := fs.Bool("hazard", false, "start every sequence with a directed prelude around the slot-reuse window (search for a failing input)")
 	if err := fs.Parse(args); err != nil {
 		return 2
@@ -772,6 +1019,7 @@ func VerifOpCacheMain(args []string) int {
 		sc := bufio.NewScanner(f)
 		var w *vocWorld
 		var done func()
+		skipRound := false
 		for sc.Scan() {
 			line := strings.TrimSpace(sc.Text())
 			if line == "" || strings.HasPrefix(line, "#") {
@@ -781,6 +1029,7 @@ func VerifOpCacheMain(args []string) int {
 				if done != nil {
 					done()
 				}
+				skipRound = false
 				w, done, err = vocNewWorld()
 				if err != nil {
 					fmt.Fprintln(os.Stderr, err)
@@ -792,6 +1041,33 @@ func VerifOpCacheMain(args []string) int {
 			}
 			// op lines carry annotations (slot=…, fetched indices): strip them for re-execution
 			t := strings.Fields(line)
+			if skipRound {
+				// the lines a round of the real loop produced: re-created by re-running the round
+				skipRound = t[0] != "waitend"
+				continue
+			}
+			switch t[0] {
+			case "waitstart":
+				if !w.startWait() {
+					fmt.Fprintln(os.Stderr, "opcacheh: built without the EpollWait schedule point (lib/epollhook.py): cannot replay a real-Wait sequence")
+					return 2
+				}
+				fmt.Fprintln(ow, "waitstart")
+				fmt.Fprintln(iw, "ok "+w.obs())
+				continue
+			case "waitround":
+				w.runRound(strings.Join(t[1:], " "), func(l string) bool { return emit(w, l) })
+				skipRound = true
+				continue
+			case "waitstop":
+				rep := "hang"
+				if w.stopWait(func(l string) bool { return emit(w, l) }) {
+					rep = "ok " + w.obs()
+				}
+				fmt.Fprintln(ow, "waitstop")
+				fmt.Fprintln(iw, rep)
+				continue
+			}
 			switch t[0] {
 			case "open", "openh", "fetch", "endbatch", "check", "drain", "dclose", "dispatchall", "release":
 				t = t[:1]
@@ -818,6 +1094,74 @@ func VerifOpCacheMain(args []string) int {
 		}
 		fmt.Fprintf(ow, "seq %d\n", s)
 		fmt.Fprintln(iw, "seq")
+		if *waitEvery > 0 && s%*waitEvery == *waitEvery-1 {
+			// the REAL loop is the poller: closes placed between the return of its epoll_wait and its next statement, opens placed
+			// between its fetch and its dispatch; its own opcache.free() decides when a released slot can be handed out again
+			em := func(l string) bool { return emit(w, l) }
+			k := 2 + r.Intn(3)
+			for i := 0; i < k; i++ {
+				if r.Intn(3) == 0 {
+					emit(w, "openh")
+				} else {
+					emit(w, "open")
+				}
+			}
+			if r.Intn(3) == 0 {
+				emit(w, "drain")
+			}
+			if w.startWait() {
+				fmt.Fprintln(ow, "waitstart")
+				fmt.Fprintln(iw, "ok "+w.obs())
+				for round := 1 + r.Intn(3); round > 0; round-- {
+					var live []int
+					for _, vc := range w.conns {
+						if !vc.closed && !vc.peerClosed {
+							live = append(live, vc.id)
+						}
+					}
+					if len(live) == 0 {
+						break
+					}
+					r.Shuffle(len(live), func(i, j int) { live[i], live[j] = live[j], live[i] })
+					ns := 1 + r.Intn(len(live))
+					if ns > 3 {
+						ns = 3
+					}
+					sends := live[:ns]
+					var cl []string
+					for i, id := range sends {
+						// the first one (whose data wakes the loop) is closed two rounds in three
+						if (i == 0 && r.Intn(3) != 0) || (i > 0 && r.Intn(3) == 0) {
+							cl = append(cl, fmt.Sprint(id))
+						}
+					}
+					var sl []string
+					for _, id := range sends {
+						sl = append(sl, fmt.Sprint(id))
+					}
+					c := strings.Join(cl, ",")
+					if c == "" {
+						c = "-"
+					}
+					w.runRound(fmt.Sprintf("s=%s c=%s o=%d x=%d", strings.Join(sl, ","), c, r.Intn(3), r.Intn(2)), em)
+				}
+				emit(w, "check")
+				// every connection is closed while the poller's descriptors are still open; then the close message ends the loop
+				for _, vc := range w.conns {
+					if !vc.closed {
+						emit(w, fmt.Sprintf("close %d", vc.id))
+					}
+				}
+				rep := "hang"
+				if w.stopWait(em) {
+					rep = "ok " + w.obs()
+				}
+				fmt.Fprintln(ow, "waitstop")
+				fmt.Fprintln(iw, rep)
+				done()
+				continue
+			}
+		}
 		if *hazard && r.Intn(3) == 0 {
 			// directed prelude around the hang-up queue: several peers hang up, all of it dispatched in ONE handler call with the first
 			// connection's OnDisconnect blocked (one hang-up list, one goroutine, stuck at its first entry); meanwhile users close some of
